@@ -97,9 +97,25 @@ class _Stop(BaseException):
 
 
 def safe_check(prop, case):
-    """Run prop.check; harness-side exceptions are *harness errors*, not violations: the
-    property modules convert exceptions raised by the code under test themselves."""
-    return prop.check(case)
+    """Run prop.check.  The property modules convert exceptions of the code under test themselves; what still
+    escapes is classified here: an exception that was raised *below* the last harness frame inside the library (e.g.
+    load_grammar failing because of leaked tokenizer state) is the library's failure and becomes a crash-signature
+    failure of the case; anything else is a harness error and propagates."""
+    try:
+        return prop.check(case)
+    except RecursionError:
+        return Outcome(excluded='recursion-limit')
+    except Exception as e:
+        import traceback
+        from .common import REPO, crash_signature
+        frames = traceback.extract_tb(e.__traceback__)
+        root = os.path.join(os.path.abspath(REPO), 'parso') + os.sep
+        vf_root = os.path.join(VERIF, 'vf') + os.sep
+        last_vf = max([i for i, f in enumerate(frames) if os.path.abspath(f.filename).startswith(vf_root)] or [-1])
+        if any(os.path.abspath(f.filename).startswith(root) for f in frames[last_vf + 1:]):
+            sig, det = crash_signature(e)
+            return Outcome(fail=('uncaught-' + sig, det), nontrivial=True)
+        raise
 
 
 def _shard(args):
@@ -166,6 +182,24 @@ def _heartbeat(prop, shard, case):
 def _hb_path(pid, shard):
     base = '/dev/shm' if os.path.isdir('/dev/shm') else '/tmp'
     return os.path.join(base, 'vf-hb-%s-%d-%d.json' % (pid, os.getppid() if shard >= 0 and multiprocessing.current_process().name != 'MainProcess' else os.getpid(), shard))
+
+
+def _child_check(args):
+    pid, case = args
+    prop = load_prop(pid)
+    prop.setup_shard('quick', 0, -1)
+    try:
+        out = safe_check(prop, case)
+    finally:
+        prop.teardown_shard()
+    return (out.fail, out.nontrivial, list(out.classes), out.excluded, out.key, out.units)
+
+
+def _in_child(pid, case):
+    ctx = multiprocessing.get_context('fork')
+    with ctx.Pool(1) as pool:
+        fail, nontrivial, classes, excluded, key, units = pool.apply(_child_check, ((pid, case),))
+    return Outcome(fail=fail, nontrivial=nontrivial, classes=classes, excluded=excluded, key=key, units=units)
 
 
 def _record(prop, res, case, out):
@@ -310,15 +344,18 @@ def run_fuzz(pid, tier, seed):
             os.makedirs(corpus)
             cmd = [sys.executable, '-m', 'vf.fuzz', pid, os.path.join(work, 'out'), '-runs=%d' % runs,
                    '-seed=%d' % (seed * 100 + i + 1), '-max_len=%d' % (192 if i % 2 == 0 else 512), '-timeout=120', corpus]
-            procs.append(subprocess.Popen(cmd, cwd=VERIF, stdout=subprocess.DEVNULL, stderr=subprocess.PIPE))
+            # stderr goes to a file: a PIPE that is only drained by a later communicate() blocks the fuzzer
+            log = open(os.path.join(work, 'log%d' % i), 'wb')
+            procs.append((subprocess.Popen(cmd, cwd=VERIF, stdout=subprocess.DEVNULL, stderr=log), log))
         units = 0
-        for i, p in enumerate(procs):
+        for i, (p, log) in enumerate(procs):
             try:
-                _, err = p.communicate(timeout=3600)
+                p.wait(timeout=3600)
             except subprocess.TimeoutExpired:
                 p.kill()
-                err = b''
-            err = err.decode('utf-8', 'replace')
+            log.close()
+            with open(os.path.join(work, 'log%d' % i), 'rb') as f:
+                err = f.read()[-4000:].decode('utf-8', 'replace')
             if 'No module named' in err and 'atheris' in err:
                 info['available'] = False
             units += len(os.listdir(os.path.join(work, 'corpus%d' % i)))
@@ -383,8 +420,11 @@ def run_check(pid, tier, seed):
     prop.setup_shard(tier, seed, -1)
 
     def judge(case, origin):
+        # Replays run in a forked child: the parent, from which the shard workers are forked, must not have used the
+        # library yet, so that every worker starts cold (first-use order of grammars / token collections is then the
+        # worker's own, drawn, order).
         nonlocal evaluations, units
-        out = prop.check(case)
+        out = _in_child(pid, case)
         evaluations += 1
         units += out.units
         for c in out.classes:
